@@ -26,9 +26,14 @@ The receiver is the generated structure `authenticode.PECOFFBinary`:
 * `hashContent : ReaderAtRef` — a `SizeReaderAt` over the caller's reader: a reference that the translated code can
   only hand to the external `makeSectionReader`.
 Externals (fields of `authenticode.Ext`, universally quantified in every theorem): `SignAuthenticode`,
-`ParseAuthenticode`, `(*Authenticode).Verify`, `makeSectionReader`.  They are functions of their arguments AS THE
+`ParseAuthenticode`, `(*Authenticode).verifyDigest`, `makeSectionReader`, and the digest function of the standard
+library `crypto_Hash_Sum` (what `alg.New()` + writes + `Sum(nil)` compute).  They are functions of their arguments AS THE
 TRANSLATION REPRESENTS THEM: an `Authenticode` value keeps `Pkcs` and `Digest`, its `Algid` is `Opaque`; a reader
-argument is the bytes it delivers, and what the callee leaves of a reader made for that one call is dropped.
+argument is the bytes it delivers, and what the callee leaves of a reader made for that one call is dropped; the CLOSURE
+that `Verify` hands to `verifyDigest` is a state machine over the memo map it captures (section 5 below: the external
+gets the step function and the state and returns the state it leaves; that it can reach the state only by calling the
+closure is the explicit hypothesis `CallsOnly`, not an assumption of the translation).  `(*Authenticode).Verify` — the
+exported method, which `PECOFFBinary.Verify` no longer calls — is not a target any more.
 `binary.Write` into a `bytes.Buffer` cannot fail (its error is `nil` in the translation, so the `fmt.Errorf` branch of
 `AppendSignature` is dead code there, as it is in Go).  Aliasing is not modelled (the harness checks that `Bytes()` results
 stay intact).
@@ -404,62 +409,148 @@ theorem C03g_sign_ok (X : authenticode.Ext) (p : authenticode.PECOFFBinary) (key
   · rename_i hy; rw [if_pos hy] at h; simp at h
   · rfl
 
-/-! ### 5. `Verify` -/
+/-! ### 5. `Verify`
 
-/-- what one table entry says: `some verdict` ends the loop, `none` ("parsed, verified without error, not signed by
-    this certificate") lets it go on -/
-def entryVerdict (X : authenticode.Ext) (content : List UInt8) (cert : X509Cert) (w : signature.WINCertificate) :
-    Option (Bool × GoErr) :=
-  let a := X.ParseAuthenticode w.Certificate
-  if a.2.isSome then some (false, some "fmt.Errorf")        -- does not parse: an error, the later entries are not looked at
-  else
-    let v := X.Authenticode_Verify a.1 cert content
-    if v.2.2.isSome then some (false, v.2.2)                  -- `Verify` of the entry reports an error: that error
-    else if v.2.1 then some (true, none)                      -- verified
-    else none                                                 -- `(false, nil)`: next entry
+Since the library hashes the image once per `Verify` call (commit "PECOFFBinary.Verify hashes the image once per call")
+the loop hands every parsed entry to the EXTERNAL `(*Authenticode).verifyDigest(cert, imageDigest)`, where `imageDigest`
+is a LOCAL CLOSURE that memoises the digest per algorithm in a local `map[crypto.Hash][]byte`.  In the translation
+(tools/go2lean/fnarg.go):
+* the map is the association list `Memo`; the closure is the helper `authenticode.PECOFFBinary.Verify.imageDigest X p`,
+  a STATE MACHINE `Memo → crypto.Hash → Memo × List UInt8 × GoErr` (it returns the map it leaves);
+* `alg.New()`, `io.Copy(h, makeSectionReader(p.hashContent))`, `h.Sum(nil)` are `X.crypto_Hash_Sum alg bytes` — the digest
+  function of the standard library is the field `crypto_Hash_Sum` of `authenticode.Ext`, a function of the algorithm and
+  the bytes (so: deterministic, as is `X.makeSectionReader`); `io.Copy` from a reader that does not fail into a
+  `hash.Hash` (whose `Write` never fails) reports no error, so the closure's error branch is dead in the translation;
+* the external is handed the state type, the step function and the current state, and returns the state it leaves:
+  `X.Authenticode_verifyDigest a cert σ step s : σ × Bool × GoErr`.  It is an ARBITRARY function of these.  That a Go
+  function can reach the closure's map only by CALLING the closure is not part of the translation: it is the explicit
+  hypothesis `CallsOnly X` of the theorems below that speak about the unmemoised digest function
+  (`C03g_verify_threaded` needs no hypothesis and says what the loop does for every external whatsoever). -/
+
+/-- the local `map[crypto.Hash][]byte` of one `Verify` call: at most one entry per algorithm (`List.lookup`, `mapSet`) -/
+abbrev Memo := List (crypto.Hash × List UInt8)
+
+/-- **the UNMEMOISED digest function**: the digest, under `alg`, of the bytes that `makeSectionReader(p.hashContent)`
+    delivers; no error -/
+def imageDigest (X : authenticode.Ext) (p : authenticode.PECOFFBinary) (alg : crypto.Hash) : List UInt8 × GoErr :=
+  (X.crypto_Hash_Sum alg (X.makeSectionReader p.hashContent).content, none)
+
+/-- **what the translated closure does**: an algorithm that is in the map answers the stored digest and leaves the map as
+    it is; one that is not is hashed, stored, and answered -/
+theorem C03g_imageDigest_step (X : authenticode.Ext) (p : authenticode.PECOFFBinary) (m : Memo) (alg : crypto.Hash) :
+    authenticode.PECOFFBinary.Verify.imageDigest X p m alg =
+      match m.lookup alg with
+      | some d => (m, d, none)
+      | none => (mapSet m alg (imageDigest X p alg).1, (imageDigest X p alg).1, none) := by
+  unfold authenticode.PECOFFBinary.Verify.imageDigest imageDigest
+  cases h : List.lookup alg m with
+  | some d => simp
+  | none => simp [lookup_mapSet]
+
+/-- the invariant of the map: whatever it holds for an algorithm is the unmemoised digest under that algorithm -/
+def MemoOk (X : authenticode.Ext) (p : authenticode.PECOFFBinary) (m : Memo) : Prop :=
+  ∀ alg d, m.lookup alg = some d → d = (imageDigest X p alg).1
+
+theorem memoOk_nil (X : authenticode.Ext) (p : authenticode.PECOFFBinary) : MemoOk X p [] := by
+  intro alg d h; simp at h
+
+/-- **the memoisation is invisible**: from a map that satisfies the invariant the closure ANSWERS WHAT THE UNMEMOISED
+    FUNCTION ANSWERS, and leaves a map that satisfies the invariant — because the digest external and
+    `makeSectionReader` are functions of their arguments (the same bytes hash to the same digest every time) -/
+theorem C03g_imageDigest_memo (X : authenticode.Ext) (p : authenticode.PECOFFBinary) (m : Memo) (alg : crypto.Hash)
+    (h : MemoOk X p m) :
+    MemoOk X p (authenticode.PECOFFBinary.Verify.imageDigest X p m alg).1 ∧
+    (authenticode.PECOFFBinary.Verify.imageDigest X p m alg).2 = imageDigest X p alg := by
+  rw [C03g_imageDigest_step]
+  cases hl : List.lookup alg m with
+  | some d =>
+    refine ⟨h, ?_⟩
+    have := h alg d hl
+    simp only [this]
+    rfl
+  | none =>
+    refine ⟨?_, rfl⟩
+    intro alg' d' hd'
+    simp only [] at hd'
+    rw [lookup_mapSet] at hd'
+    by_cases he : (alg' == alg) = true
+    · rw [if_pos he] at hd'
+      have := eq_of_beq he
+      subst this
+      exact (Option.some.inj hd').symm
+    · rw [if_neg he] at hd'
+      exact h alg' d' hd'
+
+/-- the external `verifyDigest` on a PURE digest function `f` (a closure without state) -/
+def verifyDigestOf (X : authenticode.Ext) (a : authenticode.Authenticode) (c : X509Cert)
+    (f : crypto.Hash → List UInt8 × GoErr) : Bool × GoErr :=
+  (X.Authenticode_verifyDigest a c Unit (fun _ alg => ((), f alg)) ()).2
+
+/-- **hypothesis on the external, explicit**: `verifyDigest` reaches the state of the closure it is handed ONLY BY
+    CALLING THE CLOSURE.  Then, for every state machine `step` that from the states of an invariant `I` answers what a
+    pure function `f` answers and stays inside `I`, the external started inside `I` ends inside `I` and answers what it
+    answers on `f`.  Every Go function satisfies this (it has no other access to the closure's captured variables; by
+    induction on the calls it makes, whichever algorithms it asks for and in whatever order); an arbitrary Lean function
+    of the type of the field need not, which is why it is a hypothesis and not a lemma. -/
+def CallsOnly (X : authenticode.Ext) : Prop :=
+  ∀ (a : authenticode.Authenticode) (c : X509Cert) (σ : Type) (step : σ → crypto.Hash → σ × List UInt8 × GoErr)
+    (f : crypto.Hash → List UInt8 × GoErr) (I : σ → Prop) (s : σ),
+    I s → (∀ s alg, I s → I (step s alg).1 ∧ (step s alg).2 = f alg) →
+    I (X.Authenticode_verifyDigest a c σ step s).1 ∧
+      (X.Authenticode_verifyDigest a c σ step s).2 = verifyDigestOf X a c f
+
+/-- the loop with the map threaded through it — for EVERY external: the entries are asked in table order, every parsed
+    entry is handed, with the certificate, THE SAME closure and the map as the previous entries left it -/
+def verifyFrom (X : authenticode.Ext) (p : authenticode.PECOFFBinary) (cert : X509Cert) :
+    List signature.WINCertificate → Memo → Bool × GoErr
+  | [], _ => (false, some "ErrNoValidSignatures")
+  | w :: ws, m =>
+    let a := X.ParseAuthenticode w.Certificate
+    if a.2.isSome then (false, some "fmt.Errorf")
+    else
+      let v := X.Authenticode_verifyDigest a.1 cert Memo (authenticode.PECOFFBinary.Verify.imageDigest X p) m
+      if v.2.2.isSome then (false, v.2.2)
+      else if v.2.1 then (true, none)
+      else verifyFrom X p cert ws v.1
 
 theorem verify_loop (X : authenticode.Ext) (p : authenticode.PECOFFBinary) (cert : X509Cert) :
-    ∀ ws : List signature.WINCertificate,
-    (match authenticode.PECOFFBinary.Verify.loop1 X p cert ws with
+    ∀ (ws : List signature.WINCertificate) (m : Memo),
+    (match authenticode.PECOFFBinary.Verify.loop1 X p cert ws m with
       | Loop.ret r => r
-      | Loop.done _ => (false, some "ErrNoValidSignatures")) =
-    (ws.findSome? (entryVerdict X (X.makeSectionReader p.hashContent).content cert)).getD
-      (false, some "ErrNoValidSignatures") := by
+      | Loop.done _ => (false, some "ErrNoValidSignatures")) = verifyFrom X p cert ws m := by
   intro ws
   induction ws with
-  | nil => rfl
+  | nil => intro m; rfl
   | cons w ws ih =>
-    unfold authenticode.PECOFFBinary.Verify.loop1
-    simp only [List.findSome?_cons, entryVerdict]
+    intro m
+    unfold authenticode.PECOFFBinary.Verify.loop1 verifyFrom
     by_cases h1 : (X.ParseAuthenticode w.Certificate).2.isSome
-    · simp only [h1, if_true, Option.getD_some]
+    · simp only [h1, if_true]
     · simp only [h1, Bool.false_eq_true, if_false]
-      by_cases h2 : (X.Authenticode_Verify (X.ParseAuthenticode w.Certificate).1 cert
-          (X.makeSectionReader p.hashContent).content).2.2.isSome
-      · simp only [h2, if_true, Option.getD_some]
+      by_cases h2 : (X.Authenticode_verifyDigest (X.ParseAuthenticode w.Certificate).1 cert Memo
+          (authenticode.PECOFFBinary.Verify.imageDigest X p) m).2.2.isSome
+      · simp only [h2, if_true]
       · simp only [h2, Bool.false_eq_true, if_false]
-        by_cases h3 : (X.Authenticode_Verify (X.ParseAuthenticode w.Certificate).1 cert
-            (X.makeSectionReader p.hashContent).content).2.1
-        · simp only [h3, Bool.not_true, Bool.false_eq_true, if_false, if_true, Option.getD_some]
+        by_cases h3 : (X.Authenticode_verifyDigest (X.ParseAuthenticode w.Certificate).1 cert Memo
+            (authenticode.PECOFFBinary.Verify.imageDigest X p) m).2.1
+        · simp only [h3, Bool.not_true, Bool.false_eq_true, if_false, if_true]
         · simp only [h3, Bool.not_false, if_true, Bool.false_eq_true, if_false]
-          exact ih
+          exact ih _
 
-/-- **`Verify cert`, for every value of the externals and every receiver**:
+/-- **`Verify cert`, for every value of the externals and every receiver** (no hypothesis):
     * an error of `Signatures()` → `(false, error)`;
     * no entries → `(false, ErrNoSignatures)`;
-    * otherwise the entries are asked in table order and THE FIRST ENTRY THAT DOES NOT ANSWER "(false, nil)" DECIDES:
-      an entry that does not parse (`ParseAuthenticode` errs) ends the loop with an error — entries behind it are not
-      looked at, even if one of them would verify; an error of the entry's `Verify` is returned as it is; `true` is
-      success; when every entry answers `(false, nil)` the result is `(false, ErrNoValidSignatures)`.
-    Every entry is verified against the bytes of `makeSectionReader(p.hashContent)`; the receiver is not written
-    (`C03g_frame`). -/
-theorem C03g_verify (fuel : Nat) (X : authenticode.Ext) (p : authenticode.PECOFFBinary) (cert : X509Cert) :
+    * otherwise `verifyFrom` over the listed entries, started with the EMPTY map: the first entry that does not answer
+      "(false, nil)" decides — an entry that does not parse ends the loop with an error (entries behind it are not looked
+      at), an error of `verifyDigest` is returned as it is, `true` is success; when every entry answers `(false, nil)`
+      the result is `(false, ErrNoValidSignatures)`.  The map lives in this call only; the receiver is not written
+      (`C03g_frame`). -/
+theorem C03g_verify_threaded (fuel : Nat) (X : authenticode.Ext) (p : authenticode.PECOFFBinary) (cert : X509Cert) :
     authenticode.PECOFFBinary.Verify fuel X p cert =
       match p.Signatures fuel with
       | (_, some _) => (false, some "fmt.Errorf")
       | ([], none) => (false, some "ErrNoSignatures")
-      | (ws, none) => (ws.findSome? (entryVerdict X (X.makeSectionReader p.hashContent).content cert)).getD
-          (false, some "ErrNoValidSignatures") := by
+      | (ws, none) => verifyFrom X p cert ws [] := by
   unfold authenticode.PECOFFBinary.Verify
   simp only [lenI_eq]
   rcases hs : p.Signatures fuel with ⟨ws, e⟩
@@ -469,27 +560,91 @@ theorem C03g_verify (fuel : Nat) (X : authenticode.Ext) (p : authenticode.PECOFF
     cases ws with
     | nil => simp
     | cons w ws =>
-      have h := verify_loop X p cert (w :: ws)
+      have h := verify_loop X p cert (w :: ws) []
       simp only [Option.isSome_none, Bool.false_eq_true, if_false, List.length_cons]
       have hne : ¬ (((ws.length + 1 : Nat) : Int) == 0) = true := by
         simp; omega
       simp only [hne]
-      exact h
+      rw [← h]
+      rfl
+
+/-- what one table entry says when it is verified against the digest function `f`: `some verdict` ends the loop, `none`
+    ("parsed, verified without error, not signed by this certificate") lets it go on -/
+def entryVerdict (X : authenticode.Ext) (f : crypto.Hash → List UInt8 × GoErr) (cert : X509Cert)
+    (w : signature.WINCertificate) : Option (Bool × GoErr) :=
+  let a := X.ParseAuthenticode w.Certificate
+  if a.2.isSome then some (false, some "fmt.Errorf")        -- does not parse: an error, the later entries are not looked at
+  else
+    let v := verifyDigestOf X a.1 cert f
+    if v.2.isSome then some (false, v.2)                      -- `verifyDigest` of the entry reports an error: that error
+    else if v.1 then some (true, none)                        -- verified
+    else none                                                 -- `(false, nil)`: next entry
+
+/-- under `CallsOnly`, from any map that satisfies the invariant, the threaded loop is "the first entry that does not
+    answer (false, nil) decides", every entry verified against THE SAME UNMEMOISED digest function -/
+theorem verifyFrom_eq (X : authenticode.Ext) (p : authenticode.PECOFFBinary) (cert : X509Cert) (hX : CallsOnly X) :
+    ∀ (ws : List signature.WINCertificate) (m : Memo), MemoOk X p m →
+    verifyFrom X p cert ws m =
+      (ws.findSome? (entryVerdict X (imageDigest X p) cert)).getD (false, some "ErrNoValidSignatures") := by
+  intro ws
+  induction ws with
+  | nil => intro m _; rfl
+  | cons w ws ih =>
+    intro m hm
+    have hc := hX (X.ParseAuthenticode w.Certificate).1 cert Memo (authenticode.PECOFFBinary.Verify.imageDigest X p)
+      (imageDigest X p) (MemoOk X p) m hm (fun s alg hs => C03g_imageDigest_memo X p s alg hs)
+    unfold verifyFrom
+    simp only [List.findSome?_cons, entryVerdict]
+    by_cases h1 : (X.ParseAuthenticode w.Certificate).2.isSome
+    · simp only [h1, if_true, Option.getD_some]
+    · simp only [h1, Bool.false_eq_true, if_false]
+      rw [hc.2]
+      by_cases h2 : (verifyDigestOf X (X.ParseAuthenticode w.Certificate).1 cert (imageDigest X p)).2.isSome
+      · simp only [h2, if_true, Option.getD_some]
+      · simp only [h2, Bool.false_eq_true, if_false]
+        by_cases h3 : (verifyDigestOf X (X.ParseAuthenticode w.Certificate).1 cert (imageDigest X p)).1
+        · simp only [h3, if_true, Option.getD_some]
+        · simp only [h3, Bool.false_eq_true, if_false]
+          exact ih _ hc.1
+
+/-- **`Verify cert` in terms of the unmemoised digest function** — for every receiver and every value of the externals
+    whose `verifyDigest` reaches the closure's map only by calling the closure (`CallsOnly`):
+    * an error of `Signatures()` → `(false, error)`;
+    * no entries → `(false, ErrNoSignatures)`;
+    * otherwise the entries are asked in table order and THE FIRST ENTRY THAT DOES NOT ANSWER "(false, nil)" DECIDES
+      (`entryVerdict`), EVERY ENTRY BEING VERIFIED AGAINST THE SAME DIGEST FUNCTION `imageDigest X p`: the digest, under
+      the algorithm asked for, of the bytes of `makeSectionReader(p.hashContent)`.  That the library computes that
+      digest once and keeps it in a map cannot be observed in the result (`C03g_imageDigest_memo`). -/
+theorem C03g_verify (fuel : Nat) (X : authenticode.Ext) (p : authenticode.PECOFFBinary) (cert : X509Cert)
+    (hX : CallsOnly X) :
+    authenticode.PECOFFBinary.Verify fuel X p cert =
+      match p.Signatures fuel with
+      | (_, some _) => (false, some "fmt.Errorf")
+      | ([], none) => (false, some "ErrNoSignatures")
+      | (ws, none) => (ws.findSome? (entryVerdict X (imageDigest X p) cert)).getD
+          (false, some "ErrNoValidSignatures") := by
+  rw [C03g_verify_threaded]
+  rcases hs : p.Signatures fuel with ⟨ws, e⟩
+  cases e with
+  | some e => rfl
+  | none =>
+    cases ws with
+    | nil => rfl
+    | cons w ws => exact verifyFrom_eq X p cert hX (w :: ws) [] (memoOk_nil X p)
 
 /-- success, spelled out: `Verify` returns `(true, nil)` exactly when `Signatures()` succeeds and some entry `k` parses
-    and verifies while every entry before it parsed and answered `(false, nil)` -/
-theorem C03g_verify_true_iff (fuel : Nat) (X : authenticode.Ext) (p : authenticode.PECOFFBinary) (cert : X509Cert) :
+    and verifies against the image digest function while every entry before it parsed and answered `(false, nil)` -/
+theorem C03g_verify_true_iff (fuel : Nat) (X : authenticode.Ext) (p : authenticode.PECOFFBinary) (cert : X509Cert)
+    (hX : CallsOnly X) :
     authenticode.PECOFFBinary.Verify fuel X p cert = (true, none) ↔
       ∃ ws, p.Signatures fuel = (ws, none) ∧ ∃ pre w post, ws = pre ++ w :: post ∧
-        (∀ x ∈ pre, entryVerdict X (X.makeSectionReader p.hashContent).content cert x = none) ∧
+        (∀ x ∈ pre, entryVerdict X (imageDigest X p) cert x = none) ∧
         (X.ParseAuthenticode w.Certificate).2 = none ∧
-        (X.Authenticode_Verify (X.ParseAuthenticode w.Certificate).1 cert
-          (X.makeSectionReader p.hashContent).content).2 = (true, none) := by
-  rw [C03g_verify]
-  have hv : ∀ w, entryVerdict X (X.makeSectionReader p.hashContent).content cert w = some (true, none) ↔
+        verifyDigestOf X (X.ParseAuthenticode w.Certificate).1 cert (imageDigest X p) = (true, none) := by
+  rw [C03g_verify fuel X p cert hX]
+  have hv : ∀ w, entryVerdict X (imageDigest X p) cert w = some (true, none) ↔
       ((X.ParseAuthenticode w.Certificate).2 = none ∧
-        (X.Authenticode_Verify (X.ParseAuthenticode w.Certificate).1 cert
-          (X.makeSectionReader p.hashContent).content).2 = (true, none)) := by
+        verifyDigestOf X (X.ParseAuthenticode w.Certificate).1 cert (imageDigest X p) = (true, none)) := by
     intro w
     unfold entryVerdict
     simp only []
@@ -497,22 +652,22 @@ theorem C03g_verify_true_iff (fuel : Nat) (X : authenticode.Ext) (p : authentico
     cases pe with
     | some e => simp
     | none =>
-      rcases hq : X.Authenticode_Verify a cert (X.makeSectionReader p.hashContent).content with ⟨r, ok, ve⟩
+      rcases hq : verifyDigestOf X a cert (imageDigest X p) with ⟨ok, ve⟩
       cases ve with
       | some e => simp
       | none => cases ok <;> simp
   have hfind : ∀ ws : List signature.WINCertificate,
-      (ws.findSome? (entryVerdict X (X.makeSectionReader p.hashContent).content cert)).getD
+      (ws.findSome? (entryVerdict X (imageDigest X p) cert)).getD
         (false, some "ErrNoValidSignatures") = (true, none) ↔
       ∃ pre w post, ws = pre ++ w :: post ∧
-        (∀ x ∈ pre, entryVerdict X (X.makeSectionReader p.hashContent).content cert x = none) ∧
-        entryVerdict X (X.makeSectionReader p.hashContent).content cert w = some (true, none) := by
+        (∀ x ∈ pre, entryVerdict X (imageDigest X p) cert x = none) ∧
+        entryVerdict X (imageDigest X p) cert w = some (true, none) := by
     intro ws
     induction ws with
     | nil => simp
     | cons x xs ih =>
       rw [List.findSome?_cons]
-      cases hx : entryVerdict X (X.makeSectionReader p.hashContent).content cert x with
+      cases hx : entryVerdict X (imageDigest X p) cert x with
       | some v =>
         simp only [Option.getD_some]
         constructor
@@ -566,17 +721,17 @@ theorem C03g_verify_true_iff (fuel : Nat) (X : authenticode.Ext) (p : authentico
 /-- an entry that does not parse ends the loop with an error when every entry before it answered `(false, nil)` —
     whatever stands behind it -/
 theorem C03g_verify_unparsable_entry (fuel : Nat) (X : authenticode.Ext) (p : authenticode.PECOFFBinary)
-    (cert : X509Cert) (pre post : List signature.WINCertificate) (w : signature.WINCertificate)
+    (cert : X509Cert) (hX : CallsOnly X) (pre post : List signature.WINCertificate) (w : signature.WINCertificate)
     (hs : p.Signatures fuel = (pre ++ w :: post, none))
-    (hpre : ∀ x ∈ pre, entryVerdict X (X.makeSectionReader p.hashContent).content cert x = none)
+    (hpre : ∀ x ∈ pre, entryVerdict X (imageDigest X p) cert x = none)
     (hw : (X.ParseAuthenticode w.Certificate).2.isSome) :
     authenticode.PECOFFBinary.Verify fuel X p cert = (false, some "fmt.Errorf") := by
-  rw [C03g_verify, hs]
-  have hv : entryVerdict X (X.makeSectionReader p.hashContent).content cert w = some (false, some "fmt.Errorf") := by
+  rw [C03g_verify fuel X p cert hX, hs]
+  have hv : entryVerdict X (imageDigest X p) cert w = some (false, some "fmt.Errorf") := by
     unfold entryVerdict; simp only [hw, if_true]
   have hf : ∀ pre : List signature.WINCertificate,
-      (∀ x ∈ pre, entryVerdict X (X.makeSectionReader p.hashContent).content cert x = none) →
-      (pre ++ w :: post).findSome? (entryVerdict X (X.makeSectionReader p.hashContent).content cert) =
+      (∀ x ∈ pre, entryVerdict X (imageDigest X p) cert x = none) →
+      (pre ++ w :: post).findSome? (entryVerdict X (imageDigest X p) cert) =
       some (false, some "fmt.Errorf") := by
     intro pre
     induction pre with
@@ -592,27 +747,58 @@ theorem C03g_verify_unparsable_entry (fuel : Nat) (X : authenticode.Ext) (p : au
     rw [hpw] at hf
     simp only [hf, Option.getD_some]
 
+/-- … and the very first entry needs no hypothesis at all: if it does not parse, `Verify` fails for every external -/
+theorem C03g_verify_first_unparsable (fuel : Nat) (X : authenticode.Ext) (p : authenticode.PECOFFBinary)
+    (cert : X509Cert) (w : signature.WINCertificate) (post : List signature.WINCertificate)
+    (hs : p.Signatures fuel = (w :: post, none)) (hw : (X.ParseAuthenticode w.Certificate).2.isSome) :
+    authenticode.PECOFFBinary.Verify fuel X p cert = (false, some "fmt.Errorf") := by
+  rw [C03g_verify_threaded, hs]
+  simp only [verifyFrom, hw, if_true]
+
 /-- how a `(Bool, error)` result is read by the model -/
 def outcomeOf (r : Bool × GoErr) : Outcome Bool := if r.2.isSome then .err else .ok r.1
 
-/-- **refinement of the loop**: when the externals answer as the model's `parseAuthenticode` / `Auth.verify` do — an
-    entry body parses in the translation exactly when it does in the model, and the parsed value verifies to the model's
-    outcome — the translated `Verify` is the model's `Impl.Parsed.verify` (Model/Authenticode.lean, about which
+/-- what `(*Authenticode).verifyDigest(cert, f)` does in the library, on the model's `Auth` value (Go: the algorithm must
+    be SHA-256, the embedded digest must have its length, `f(crypto.SHA256)` must not fail and must equal the embedded
+    digest; then the PKCS#7 verification decides).  `crypto.SHA256` is 5. -/
+def authVerifyDigest (C : Crypto) (a : Impl.Auth) (c : Cert) (f : crypto.Hash → List UInt8 × GoErr) : Outcome Bool :=
+  if a.alg != Impl.oidSha256 then .err else
+  if a.digest.length != 32 then .err else
+  if (f 5).2.isSome then .err else
+  if (f 5).1 != a.digest then .err else
+  a.pkcs.verify C c
+
+/-- on the digest function "SHA-256 of `stream`" this is the model's `Auth.verify … stream` -/
+theorem authVerifyDigest_eq (C : Crypto) (a : Impl.Auth) (c : Cert) (f : crypto.Hash → List UInt8 × GoErr)
+    (stream : Bytes) (hf : f 5 = (C.sha256 stream, none)) :
+    authVerifyDigest C a c f = a.verify C c stream := by
+  unfold authVerifyDigest Impl.Auth.verify
+  rw [hf]
+  simp
+
+/-- **refinement of the loop**: when
+    * `verifyDigest` reaches the closure's map only by calling the closure (`CallsOnly`),
+    * the bytes of `makeSectionReader(hashContent)` are the model's hash stream,
+    * the externals answer as the model's `parseAuthenticode` / `Auth.verify` do — an entry body parses in the translation
+      exactly when it does in the model, and the parsed value, verified against the image digest function, gives the
+      model's outcome on the hash stream (`C03g_verifyDigest_model`: so it is for an external that does what
+      `authVerifyDigest` says, with a digest external that is the model's SHA-256) —
+    the translated `Verify` is the model's `Impl.Parsed.verify` (Model/Authenticode.lean, about which
     `C02_sound … C02_refines_spec` are proved), for any fuel above the table length -/
 theorem C03g_verify_refines (fuel : Nat) (X : authenticode.Ext) (p : authenticode.PECOFFBinary) (cert : X509Cert)
     (C : Crypto) (certsOk : Bytes → Bool) (c : Cert) (parts : List Impl.Part) (regular : Bool)
+    (hX : CallsOnly X)
     (hf : p.certTable.length < fuel)
-    (hstream : (X.makeSectionReader p.hashContent).content = Impl.hashStream (absP p parts regular))
     (hext : ∀ b : List UInt8,
       match Impl.parseAuthenticode certsOk b with
       | none => (X.ParseAuthenticode b).2.isSome
       | some a => (X.ParseAuthenticode b).2 = none ∧
-          outcomeOf (X.Authenticode_Verify (X.ParseAuthenticode b).1 cert
-            (Impl.hashStream (absP p parts regular))).2 = a.verify C c (Impl.hashStream (absP p parts regular))) :
+          outcomeOf (verifyDigestOf X (X.ParseAuthenticode b).1 cert (imageDigest X p)) =
+            a.verify C c (Impl.hashStream (absP p parts regular))) :
     outcomeOf (authenticode.PECOFFBinary.Verify fuel X p cert) = (absP p parts regular).verify C certsOk c := by
-  rw [C03g_verify, hstream]
+  rw [C03g_verify fuel X p cert hX]
   have hloop : ∀ gws : List signature.WINCertificate,
-      outcomeOf ((gws.findSome? (entryVerdict X (Impl.hashStream (absP p parts regular)) cert)).getD
+      outcomeOf ((gws.findSome? (entryVerdict X (imageDigest X p) cert)).getD
         (false, some "ErrNoValidSignatures")) =
       Impl.verifySigs C certsOk c (Impl.hashStream (absP p parts regular)) (gws.map absWC) := by
     intro gws
@@ -633,10 +819,8 @@ theorem C03g_verify_refines (fuel : Nat) (X : authenticode.Ext) (p : authenticod
         rw [hm] at he
         obtain ⟨hp, hv⟩ := he
         simp only [entryVerdict, hp, Option.isSome_none, Bool.false_eq_true, if_false]
-        rcases hq : X.Authenticode_Verify (X.ParseAuthenticode w.Certificate).1 cert
-          (Impl.hashStream (absP p parts regular)) with ⟨r, ok, ve⟩
+        rcases hq : verifyDigestOf X (X.ParseAuthenticode w.Certificate).1 cert (imageDigest X p) with ⟨ok, ve⟩
         rw [hq] at hv
-        simp only at hv
         rw [← hv]
         cases ve with
         | some e => simp [outcomeOf]
@@ -668,6 +852,20 @@ theorem C03g_verify_refines (fuel : Nat) (X : authenticode.Ext) (p : authenticod
     | some e' => rfl
   | panic => exact absurd hm (C03g_signatures_model_returns _).1
   | exit => exact absurd hm (C03g_signatures_model_returns _).2
+
+/-- the third hypothesis of `C03g_verify_refines`, discharged for an external that does what the library's
+    `verifyDigest` does (`authVerifyDigest`) when the digest external under `crypto.SHA256` is the model's SHA-256 and
+    the bytes of `makeSectionReader(hashContent)` are the model's hash stream -/
+theorem C03g_verifyDigest_model (X : authenticode.Ext) (p : authenticode.PECOFFBinary) (cert : X509Cert)
+    (C : Crypto) (c : Cert) (parts : List Impl.Part) (regular : Bool) (a : Impl.Auth) (ga : authenticode.Authenticode)
+    (hstream : (X.makeSectionReader p.hashContent).content = Impl.hashStream (absP p parts regular))
+    (hsha : ∀ bs, X.crypto_Hash_Sum 5 bs = C.sha256 bs)
+    (hvd : ∀ f, outcomeOf (verifyDigestOf X ga cert f) = authVerifyDigest C a c f) :
+    outcomeOf (verifyDigestOf X ga cert (imageDigest X p)) = a.verify C c (Impl.hashStream (absP p parts regular)) := by
+  rw [hvd]
+  apply authVerifyDigest_eq
+  unfold imageDigest
+  rw [hstream, hsha]
 
 /-! ### `Bytes()` / `Open()` -/
 
@@ -717,13 +915,24 @@ section NonVacuity
 /-- an unsigned object: empty table, directory entry (0, 0), `length` 352, three bytes of padding -/
 def p0 : authenticode.PECOFFBinary :=
   ⟨⟨0, 0⟩, ⟨7⟩, 352, [0, 0, 0], ⟨[0, 0, 0, 0, 0, 0, 0, 0]⟩, [], ⟨[0x4d, 0x5a]⟩, ⟨[9, 9]⟩⟩
-/-- externals: signing yields `[1, 2, 3]`; an entry body parses unless it is empty, and verifies iff it starts with the
-    first byte of the certificate's `Raw` -/
+/-- externals: signing yields `[1, 2, 3]`; an entry body parses unless it is empty; `verifyDigest` asks the closure it is
+    handed for the digest under algorithm 5 ONCE (passing on an error) and answers "verified" iff that digest is the
+    digest of the image (`[5, 0xaa]`: the digest external puts the algorithm in front of the bytes, the image's hash
+    input is `[0xaa]`) and the entry starts with the first byte of the certificate's `Raw` -/
 def X0 : authenticode.Ext :=
   { SignAuthenticode := fun _ _ r _ => (r, [1, 2, 3], none),
     ParseAuthenticode := fun b => (⟨⟨⟨⟩, [], [], [], ⟨⟩⟩, ⟨⟩, b⟩, if b.isEmpty then some "parse" else none),
-    Authenticode_Verify := fun a c r => (r, a.Digest.head? == c.Raw.head?, none),
-    makeSectionReader := fun _ => ⟨[0xaa]⟩ }
+    Authenticode_verifyDigest := fun a c _ step s =>
+      let r := step s 5
+      (r.1, if r.2.2.isSome then (false, r.2.2) else (r.2.1 == [5, 0xaa] && a.Digest.head? == c.Raw.head?, none)),
+    makeSectionReader := fun _ => ⟨[0xaa]⟩,
+    crypto_Hash_Sum := fun alg bs => alg.toUInt8 :: bs }
+/-- `X0.verifyDigest` reaches the state of the closure only by calling it (the hypothesis `CallsOnly` is satisfiable) -/
+theorem X0_callsOnly : CallsOnly X0 := by
+  intro a c σ step f I s hs hstep
+  have h := hstep s 5 hs
+  refine ⟨h.1, ?_⟩
+  simp only [X0, verifyDigestOf, h.2]
 def certA : X509Cert := ⟨[1], [], [], 1⟩
 def certB : X509Cert := ⟨[5], [], [], 2⟩
 
@@ -741,6 +950,45 @@ example : (authenticode.PECOFFBinary.Sign X0 p0 ⟨0⟩ certA).1 = (p0.AppendSig
 example : (authenticode.PECOFFBinary.Sign X0 p0 ⟨0⟩ certA).1.Bytes =
     [0x4d, 0x5a, 0x60, 1, 0, 0, 16, 0, 0, 0, 9, 9, 0, 0, 0, 11, 0, 0, 0, 0, 2, 2, 0, 1, 2, 3, 0, 0, 0, 0, 0] := by
   decide +kernel
+/-- the closure: the first call hashes and stores, the second answers from the map and leaves it as it is; another
+    algorithm gets its own entry -/
+example : authenticode.PECOFFBinary.Verify.imageDigest X0 p0 [] 5 = ([(5, [5, 0xaa])], [5, 0xaa], none) ∧
+    authenticode.PECOFFBinary.Verify.imageDigest X0 p0 [(5, [5, 0xaa])] 5 = ([(5, [5, 0xaa])], [5, 0xaa], none) ∧
+    authenticode.PECOFFBinary.Verify.imageDigest X0 p0 [(5, [5, 0xaa])] 7 =
+      ([(7, [7, 0xaa]), (5, [5, 0xaa])], [7, 0xaa], none) ∧
+    imageDigest X0 p0 5 = ([5, 0xaa], none) := by decide +kernel
+/-- a map that does NOT satisfy the invariant is answered from (why `MemoOk` is a hypothesis of `C03g_imageDigest_memo`;
+    `Verify` starts from the empty map) -/
+example : (authenticode.PECOFFBinary.Verify.imageDigest X0 p0 [(5, [0])] 5).2 = ([0], none) := by decide +kernel
+/-- two entries, neither by B: the map the second entry is handed holds the digest that the first one asked for -/
+example : verifyFrom X0 p0 certB [newEntry [1, 2, 3], newEntry [1]] [] =
+      verifyFrom X0 p0 certB [newEntry [1]] [(5, [5, 0xaa])] ∧
+    verifyFrom X0 p0 certB [newEntry [1, 2, 3], newEntry [1]] [] = (false, some "ErrNoValidSignatures") := by
+  decide +kernel
+/-- `CallsOnly` CANNOT BE DROPPED from `C03g_verify`: a Lean function of the field's type that recognises the state type
+    and swaps in a map of its own making before it calls the closure (no Go function can do that: it has no access to
+    the closure's variables) makes the signed image fail although the formula over the unmemoised digest function says
+    "verified" -/
+noncomputable def badVerifyDigest (a : authenticode.Authenticode) (c : X509Cert) (σ : Type)
+    (step : σ → crypto.Hash → σ × List UInt8 × GoErr) (s : σ) : σ × Bool × GoErr :=
+  have : Decidable (σ = Memo) := Classical.propDecidable _
+  if h : σ = Memo then X0.Authenticode_verifyDigest a c σ step (cast h.symm ([(5, [0])] : Memo))
+  else X0.Authenticode_verifyDigest a c σ step s
+noncomputable def Xbad : authenticode.Ext := { X0 with Authenticode_verifyDigest := badVerifyDigest }
+theorem unit_ne_memo : ¬ (Unit = Memo) := by
+  intro h
+  have key : ∀ (α : Type), Unit = α → ∀ a b : α, a = b := by
+    intro α h; subst h; intro a b; rfl
+  exact absurd (key Memo h [] [(5, [])]) (by decide)
+example :
+    verifyFrom Xbad p0 certA [newEntry [1, 2, 3]] [] = (false, some "ErrNoValidSignatures") ∧
+    ([newEntry [1, 2, 3]].findSome? (entryVerdict Xbad (imageDigest Xbad p0) certA)).getD
+      (false, some "ErrNoValidSignatures") = (true, none) := by
+  constructor
+  · simp only [verifyFrom, Xbad, badVerifyDigest, dif_pos, cast_eq]
+    decide +kernel
+  · simp only [List.findSome?_cons, entryVerdict, verifyDigestOf, Xbad, badVerifyDigest, dif_neg unit_ne_memo]
+    decide +kernel
 /-- `Verify`: no signatures; signed by A; the second of two entries decides for B; a failed signing changes nothing -/
 example : authenticode.PECOFFBinary.Verify 1 X0 p0 certA = (false, some "ErrNoSignatures") := by decide +kernel
 example : authenticode.PECOFFBinary.Verify 17 X0 (p0.AppendSignature [1, 2, 3]).1 certA = (true, none) ∧
@@ -808,10 +1056,16 @@ end GoUefi.C03
 #print axioms GoUefi.C03.C03g_sign
 #print axioms GoUefi.C03.C03g_sign_failed_unchanged
 #print axioms GoUefi.C03.C03g_sign_ok
+#print axioms GoUefi.C03.C03g_imageDigest_step
+#print axioms GoUefi.C03.C03g_imageDigest_memo
+#print axioms GoUefi.C03.C03g_verify_threaded
 #print axioms GoUefi.C03.C03g_verify
 #print axioms GoUefi.C03.C03g_verify_true_iff
 #print axioms GoUefi.C03.C03g_verify_unparsable_entry
+#print axioms GoUefi.C03.C03g_verify_first_unparsable
 #print axioms GoUefi.C03.C03g_verify_refines
+#print axioms GoUefi.C03.C03g_verifyDigest_model
+#print axioms GoUefi.C03.X0_callsOnly
 #print axioms GoUefi.C03.C03g_bytes
 #print axioms GoUefi.C03.C03g_bytes_tail
 #print axioms GoUefi.C03.C03g_bytes_refines
